@@ -444,10 +444,14 @@ func (g *G) UpdArg(op string, doc bson.D) interface{} {
 		if g.P(60) {
 			return g.Operand(doc, g.P(70))
 		}
-		n := g.N(4)
+		n := g.N(5)
 		each := make(bson.A, 0, n)
 		for i := 0; i < n; i++ {
-			each = append(each, g.Operand(doc, g.P(80)))
+			if i > 0 && g.P(35) {
+				each = append(each, each[g.N(i)]) // a value repeated inside $each is added once
+			} else {
+				each = append(each, g.Operand(doc, g.P(80)))
+			}
 		}
 		return bson.D{{Key: "$each", Value: each}}
 	case "$bit":
